@@ -212,6 +212,7 @@ func (c16) Run(c *wk.Case) {
 				return
 			}
 		}
+		gi.FloatTol = regroupTol(g == vl.opt, imp)
 		if v, why := bridge.CompareOutcome(wv, we, rae, gi); v == bridge.Disagree {
 			c.Violation("outcome-differs-from-reference", fmt.Sprintf("[%s] map %s: %q: %s", label, ref.Describe(mref), imp, why), map[string]any{"implicit": imp, "map": ref.Describe(mref), "why": why})
 			return
